@@ -168,7 +168,9 @@ func (pac *PACType) ProcessPACInfoBuffers(key types.EncryptionKey, l *log.Logger
 			var k S4UDelegationInfo
 			err := k.Unmarshal(p)
 			if err != nil {
-				l.Printf("could not process S4U_DelegationInfo: %v", err)
+				if l != nil {
+					l.Printf("could not process S4U_DelegationInfo: %v", err)
+				}
 				continue
 			}
 			pac.S4UDelegationInfo = &k
@@ -180,7 +182,9 @@ func (pac *PACType) ProcessPACInfoBuffers(key types.EncryptionKey, l *log.Logger
 			var k UPNDNSInfo
 			err := k.Unmarshal(p)
 			if err != nil {
-				l.Printf("could not process UPN_DNSInfo: %v", err)
+				if l != nil {
+					l.Printf("could not process UPN_DNSInfo: %v", err)
+				}
 				continue
 			}
 			pac.UPNDNSInfo = &k
@@ -192,7 +196,9 @@ func (pac *PACType) ProcessPACInfoBuffers(key types.EncryptionKey, l *log.Logger
 			var k ClientClaimsInfo
 			err := k.Unmarshal(p)
 			if err != nil {
-				l.Printf("could not process ClientClaimsInfo: %v", err)
+				if l != nil {
+					l.Printf("could not process ClientClaimsInfo: %v", err)
+				}
 				continue
 			}
 			pac.ClientClaimsInfo = &k
@@ -204,7 +210,9 @@ func (pac *PACType) ProcessPACInfoBuffers(key types.EncryptionKey, l *log.Logger
 			var k DeviceInfo
 			err := k.Unmarshal(p)
 			if err != nil {
-				l.Printf("could not process DeviceInfo: %v", err)
+				if l != nil {
+					l.Printf("could not process DeviceInfo: %v", err)
+				}
 				continue
 			}
 			pac.DeviceInfo = &k
@@ -216,7 +224,9 @@ func (pac *PACType) ProcessPACInfoBuffers(key types.EncryptionKey, l *log.Logger
 			var k DeviceClaimsInfo
 			err := k.Unmarshal(p)
 			if err != nil {
-				l.Printf("could not process DeviceClaimsInfo: %v", err)
+				if l != nil {
+					l.Printf("could not process DeviceClaimsInfo: %v", err)
+				}
 				continue
 			}
 			pac.DeviceClaimsInfo = &k
